@@ -12,12 +12,12 @@ use crate::ev::{Run, Tier};
 use crate::fe::*;
 use crate::prog::Prog;
 
-struct Item {
-    name: String,
-    prog: Prog,
+pub struct Item {
+    pub name: String,
+    pub prog: Prog,
 }
 
-fn named_circuits() -> Vec<Item> {
+pub fn named_circuits() -> Vec<Item> {
     let mut v = vec![];
     let mut push = |name: &str, p: Prog| v.push(Item { name: format!("named/{}", name), prog: p });
     push(
